@@ -34,6 +34,8 @@ class DbWorker:
         self.completed = 0
         self.log: list[str] = []
         self.fail_next: list[BaseException] = []  # injected faults for the next operations
+        self.fail_matching: list[tuple[str, int, BaseException]] = []  # (label prefix, k, exc): fail the k-th op whose label starts with prefix
+        self._match_counts: dict[str, int] = {}
         DbWorker.current = self
 
     def submit(self, label: str, fn: Callable[[], Any]) -> asyncio.Future[Any]:
@@ -57,6 +59,14 @@ class DbWorker:
         try:
             if self.fail_next:
                 raise self.fail_next.pop(0)
+            for i, (prefix, k, exc) in enumerate(self.fail_matching):
+                if label.startswith(prefix):
+                    n = self._match_counts.get(prefix, 0)
+                    self._match_counts[prefix] = n + 1
+                    if n == k:
+                        del self.fail_matching[i]
+                        raise exc
+                    break
             fut.set_result(fn())
         except BaseException as e:  # noqa: BLE001
             if not fut.done():
@@ -131,7 +141,9 @@ class Connection:
             assert self._conn is not None, "connection closed"
             return Cursor(self._conn.execute(sql, parameters if parameters is not None else ()))
 
-        return await self._w().submit("execute:" + sql.split(None, 2)[0].upper(), op)
+        words = sql.split(None, 3)
+        label = "execute:" + words[0].upper() + (":" + words[2].split("(")[0] if len(words) > 2 and words[0].upper() == "INSERT" else "")
+        return await self._w().submit(label, op)
 
     async def executescript(self, sql: str) -> Cursor:
         def op() -> Cursor:
